@@ -51,7 +51,7 @@ func TestC23(t *testing.T) {
 	defer r.Finish()
 	polyeth.VerifSealBypass = true
 	defer func() { polyeth.VerifSealBypass = false }()
-	r.Rule("per router: a synced synthetic chain (trust root, 2 blocks without the deposits, then blocks whose state holds ~45 committed deposits, one non-canonical fork block holding an extra deposit) with BlocksToWait in {1,2,6}; ~45 proof cases per chain, each with its own deposit: valid at depth / exactly at the confirmation boundary / one short of it / above head / below the trust root / at a block before the deposit; truncated, reordered, padded proofs; node from another trie; other account; CCMC mismatch; altered account fields; wrong slot; message altered / truncated; slots holding short words (1, 2, 3, 16, 31 bytes) equal to the tail / head of the message hash; commitments off by one byte; hash with a leading zero byte (must be accepted); absence proofs; fork-block deposit; malformed JSON; plus per trial two reorganisation scenarios (long light chain A, then a SHORTER but heavier fork B becomes the head: eth slow vs fast blocks, PoSA out-of-turn vs in-turn seals) with deposits proven against orphaned A blocks at every height relative to the new head (at/below it, above it up to A's old tip, beyond) and against canonical B blocks; distinct = (router, BlocksToWait, case)")
+	r.Rule("per router: a synced synthetic chain (trust root, 2 blocks without the deposits, then blocks whose state holds ~45 committed deposits, one non-canonical fork block holding an extra deposit) with BlocksToWait in {1,2,6}; ~45 proof cases per chain, each with its own deposit: valid at depth / exactly at the confirmation boundary / one short of it / above head / below the trust root / at a block before the deposit; truncated, reordered, padded proofs; node from another trie; other account; CCMC mismatch; proof addresses of 19/21/32 bytes that crop or pad to the registered contract address, backed by really existing state-trie leaves under keccak256(raw bytes) (contract addresses with leading zero bytes included); altered account fields; wrong slot; message altered / truncated; slots holding short words (1, 2, 3, 16, 31 bytes) equal to the tail / head of the message hash; commitments off by one byte; hash with a leading zero byte (must be accepted); absence proofs; fork-block deposit; malformed JSON; plus per trial two reorganisation scenarios (long light chain A, then a SHORTER but heavier fork B becomes the head: eth slow vs fast blocks, PoSA out-of-turn vs in-turn seals) with deposits proven against orphaned A blocks at every height relative to the new head (at/below it, above it up to A's old tip, beyond) and against canonical B blocks; distinct = (router, BlocksToWait, case)")
 	r.Assume("confirmations are counted as the handlers define them: a block at the head has 1 confirmation, so a deposit at height h is confirmed when head - h + 1 >= BlocksToWait (BlocksToWait >= 1 is enforced at registration)")
 	r.Assume("cases whose claim is true but whose proof is not in canonical eth_getProof form (nodes reordered, junk nodes added, two storage proofs, odd hex casing) are checked for soundness only: if accepted, the delivered message must be the submitted one")
 	r.Assume("driven through cross_chain_manager.ImportOuterTransfer (entrance.go), destination chain registered, fresh cross-chain id per case; replay protection belongs to C20 and is only recorded here")
@@ -93,6 +93,8 @@ func TestC23(t *testing.T) {
 		r.Require(name+":accepted", trials*3*4)
 		r.Require(name+":rejected", trials*3*35)
 		r.Require(name+":rejected_short_word", trials*3*10)
+		r.Require(name+":rejected_alien_address", trials*3*4)
+		r.Require(name+":rejected_alien_address_trimmed_ccmc", 1)
 		r.Require(name+":accepted_at_confirmation_boundary", trials*3)
 		r.Require(name+":rejected_one_short_of_confirmations", trials*2)
 		r.Require(name+":rejected_fork_block_deposit", trials*3)
@@ -114,6 +116,12 @@ func flavorOf(name string) *es.Flavor {
 func runChain(r *kit.Run, rng *rand.Rand, e *es.Env, name string, chainID, w uint64) {
 	var ccmc es.Addr
 	rng.Read(ccmc[:])
+	if w == 2 || rng.Intn(3) == 0 {
+		ccmc[0] = 0 // a contract address with a leading zero byte (vanity addresses are common)
+		if rng.Intn(2) == 0 {
+			ccmc[1] = 0
+		}
+	}
 	// ---- world states
 	stA := es.NewState(rng, ccmc, 6+rng.Intn(20))
 	var other es.Addr // another contract account that will hold the same commitments
@@ -193,6 +201,36 @@ func runChain(r *kit.Run, rng *rand.Rand, e *es.Env, name string, chainID, w uin
 			stB.CommitRaw(ccmc, sc.slot, word)
 			shorts = append(shorts, sc)
 		}
+	}
+	// alien leaves: really existing state-trie leaves under keccak256(byte string that is not the
+	// 20-byte contract address but looks like it after cropping / padding to 20 bytes), whose
+	// storage commits to messages the registered contract never committed
+	type alienCase struct {
+		name string
+		raw  []byte
+		slot es.Hash
+		msg  []byte
+	}
+	var aliens []alienCase
+	addAlien := func(name string, raw []byte) {
+		ac := alienCase{name, raw, es.RandHash(rng), es.RandTxParam(rng, targetChain).Serialize()}
+		acc := stB.AddAlien(rng, raw)
+		h := es.Keccak(ac.msg)
+		acc.Storage[ac.slot] = h[:]
+		aliens = append(aliens, ac)
+	}
+	addAlien("alien-address-21-bytes-ff-then-ccmc", append([]byte{0xff}, ccmc[:]...))
+	addAlien("alien-address-21-bytes-00-then-ccmc", append([]byte{0x00}, ccmc[:]...))
+	pad := make([]byte, 12)
+	rng.Read(pad)
+	addAlien("alien-address-32-bytes-ending-in-ccmc", append(pad, ccmc[:]...))
+	addAlien("alien-address-ccmc-then-extra-byte", append(append([]byte{}, ccmc[:]...), 0x00))
+	if ccmc[0] == 0 {
+		trimmed := ccmc[1:]
+		if ccmc[1] == 0 {
+			trimmed = ccmc[2:]
+		}
+		addAlien("alien-address-ccmc-without-leading-zero-bytes", append([]byte{}, trimmed...))
 	}
 	stF := stB.Clone() // the fork block's state: one more deposit
 	fp := es.RandTxParam(rng, targetChain)
@@ -393,6 +431,9 @@ func runChain(r *kit.Run, rng *rand.Rand, e *es.Env, name string, chainID, w uin
 	for _, sc := range shorts {
 		add(sc.name, h0, stB.Prove(ccmc, sc.slot), sc.msg, reject)
 	}
+	for _, ac := range aliens {
+		add(ac.name, h0, stB.ProveRaw(ac.raw, ac.slot), ac.msg, reject)
+	}
 	add("fork-block-deposit", hf, stF.Prove(ccmc, fdep.slot), fdep.msg, reject)
 	add("fork-block-deposit-at-other-height", h0, stF.Prove(ccmc, fdep.slot), fdep.msg, reject)
 	d = take()
@@ -530,6 +571,12 @@ func runCase(r *kit.Run, e *es.Env, router string, chainID, w uint64, src string
 			}
 			if strings.Contains(c.name, "orphaned-A-block-at-or-below-head") {
 				r.Count(router+":rejected_orphan_at_or_below_head_after_reorg", 1)
+			}
+			if strings.HasPrefix(c.name, "alien-address-") {
+				r.Count(router+":rejected_alien_address", 1)
+			}
+			if c.name == "alien-address-ccmc-without-leading-zero-bytes" {
+				r.Count(router+":rejected_alien_address_trimmed_ccmc", 1)
 			}
 			if strings.HasPrefix(c.name, "short-word-") {
 				r.Count(router+":rejected_short_word", 1)
